@@ -3,6 +3,7 @@ import Proofs.Lemmas.C02Registry
 import Proofs.Lemmas.C02Altair
 import Proofs.Lemmas.C02Phase0
 import Proofs.Lemmas.C02WF
+import Zrnt.Beacon.Impl.Pipeline
 import Zrnt.Beacon.Impl.Final
 /-!
 # C02 — slot, epoch and fork-upgrade processing equals the consensus spec
@@ -548,5 +549,332 @@ theorem slashings_snapshot_eq (cfg : Config) (fork : Fork) (cur fin limit : Nat)
       cases hy : vals[i]? <;> simp_all
   rw [htot]
   exact (Lemmas.slashings_pure_congr cfg fork cur _ slashings _ _ balances hk).symm
+
+/-! ## The whole epoch transition -/
+
+theorem totalActiveStake_eq_spec (cfg : Config) (vals : List Validator) (cur : Nat) :
+    Impl.totalActiveStake cfg vals cur = total_active_balance_of cfg vals cur := by
+  rw [totalActiveStake_eq, Lemmas.total_active_balance_of_eq]
+
+/-- the finalized checkpoint after weighing is one of three known checkpoints -/
+theorem weigh_finalized_le (prev cur : Nat) (f : FFG) (total pt ct : Nat) (pr cr : Bytes)
+    (h1 : f.finalized_checkpoint.epoch ≤ cur) (h2 : f.previous_justified_checkpoint.epoch ≤ cur)
+    (h3 : f.current_justified_checkpoint.epoch ≤ cur) :
+    (weigh_justification_and_finalization_pure prev cur f total pt ct pr cr).finalized_checkpoint.epoch ≤ cur := by
+  unfold weigh_justification_and_finalization_pure
+  simp only [Id.run, pure, bind]
+  by_cases c1 : pt * 3 ≥ total * 2 <;> by_cases c2 : ct * 3 ≥ total * 2 <;> simp only [c1, c2, ↓reduceIte] <;>
+    (repeat' split) <;> first | exact h1 | exact h2 | exact h3
+
+/-- what a state must satisfy for the composed theorem (all of it holds in reachable states) -/
+structure EpochWF (cfg : Config) (s : State) : Prop where
+  wf : Lemmas.WF s.validators
+  small : Lemmas.EpochsSmall cfg (get_current_epoch cfg s) s.validators
+  bal_len : s.balances.length = s.validators.length
+  bits : s.justification_bits.length = 4
+  pj : s.previous_justified_checkpoint.epoch ≤ get_current_epoch cfg s
+  cj : s.current_justified_checkpoint.epoch ≤ get_current_epoch cfg s
+  fin : s.finalized_checkpoint.epoch ≤ get_current_epoch cfg s
+  part_len : s.fork ≠ .phase0 → s.current_epoch_participation.length = s.validators.length
+
+theorem justification_stage_eq (cfg : Config) (inp : EpochInputs) (prev cur : Nat) (s : State)
+    (hbits : s.justification_bits.length = 4) :
+    Impl.justificationStage cfg inp prev cur s.validators s = justification_stage cfg inp prev cur s := by
+  unfold Impl.justificationStage justification_stage
+  split
+  · rfl
+  · simp only [totalActiveStake_eq_spec]
+    by_cases hf : s.fork = .phase0
+    · simp only [hf, ↓reduceIte]
+      rw [justification_eq prev cur (ffgOf s) _ _ _ _ _ hbits]
+      have := targetStakes_phase0_eq cfg s.validators prev inp.prevAtts inp.currAtts
+      rw [← this]
+    · simp only [hf, ↓reduceIte]
+      rw [justification_eq prev cur (ffgOf s) _ _ _ _ _ hbits]
+      have := (currentTargetStake_eq cfg s.validators s.previous_epoch_participation s.current_epoch_participation prev cur).1
+      rw [← this]
+
+/-- frame of the justification stage -/
+theorem justification_stage_frame (cfg : Config) (inp : EpochInputs) (prev cur : Nat) (s : State) :
+    let s1 := justification_stage cfg inp prev cur s
+    s1.validators = s.validators ∧ s1.balances = s.balances ∧ s1.fork = s.fork ∧ s1.slashings = s.slashings ∧
+    s1.previous_epoch_participation = s.previous_epoch_participation ∧
+    s1.current_epoch_participation = s.current_epoch_participation ∧ s1.inactivity_scores = s.inactivity_scores := by
+  simp only [justification_stage]
+  split <;> exact ⟨rfl, rfl, rfl, rfl, rfl, rfl, rfl⟩
+
+theorem justification_stage_fin (cfg : Config) (inp : EpochInputs) (prev cur : Nat) (s : State)
+    (h1 : s.finalized_checkpoint.epoch ≤ cur) (h2 : s.previous_justified_checkpoint.epoch ≤ cur)
+    (h3 : s.current_justified_checkpoint.epoch ≤ cur) :
+    (justification_stage cfg inp prev cur s).finalized_checkpoint.epoch ≤ cur := by
+  unfold justification_stage
+  split
+  · exact h1
+  · exact weigh_finalized_le prev cur (ffgOf s) _ _ _ _ _ h1 h2 h3
+
+theorem inactivity_stage_eq (cfg : Config) (prev cur : Nat) (s : State) :
+    Impl.inactivityStage cfg prev cur s.validators s = inactivity_stage cfg prev cur s := by
+  unfold Impl.inactivityStage inactivity_stage
+  split
+  · rfl
+  · simp only []
+    rw [(currentTargetStake_eq cfg s.validators s.previous_epoch_participation s.current_epoch_participation prev cur).2,
+      inactivity_eq]
+
+theorem inactivity_stage_frame (cfg : Config) (prev cur : Nat) (s : State) :
+    let s1 := inactivity_stage cfg prev cur s
+    s1.validators = s.validators ∧ s1.balances = s.balances ∧ s1.fork = s.fork ∧ s1.slashings = s.slashings ∧
+    s1.previous_epoch_participation = s.previous_epoch_participation ∧
+    s1.current_epoch_participation = s.current_epoch_participation ∧
+    s1.finalized_checkpoint = s.finalized_checkpoint := by
+  simp only [inactivity_stage]
+  split <;> exact ⟨rfl, rfl, rfl, rfl, rfl, rfl, rfl⟩
+
+theorem rewards_stage_eq (cfg : Config) (inp : EpochInputs) (prev cur : Nat) (s : State)
+    (hlen : s.balances.length = s.validators.length) :
+    Impl.rewardsStage cfg inp prev cur s.validators s = rewards_stage cfg inp prev cur s := by
+  unfold Impl.rewardsStage rewards_stage
+  split
+  · rfl
+  · simp only [totalActiveStake_eq_spec]
+    split
+    · rw [rewards_phase0_eq cfg s.validators prev cur inp.prevAtts inp.currAtts _ s.balances hlen]
+      rfl
+    · rw [(currentTargetStake_eq cfg s.validators s.previous_epoch_participation s.current_epoch_participation prev cur).2,
+        rewards_altair_eq cfg s.validators _ _ s.balances prev cur _ _ hlen]
+
+theorem apply_deltas_pure_length (n : Nat) (balances : List Nat) (d : Deltas) :
+    (apply_deltas_pure n balances d).length = balances.length := by
+  unfold apply_deltas_pure
+  refine Lemmas.foldl_preserves (fun (b : List Nat) => b.length = balances.length) _ _ _ rfl ?_
+  intro b i hb
+  cases b[i]? <;> simp [hb]
+
+theorem foldl_apply_deltas_length (n : Nat) (ds : List Deltas) (balances : List Nat) :
+    (ds.foldl (apply_deltas_pure n) balances).length = balances.length := by
+  induction ds generalizing balances with
+  | nil => rfl
+  | cons d ds ih => simp only [List.foldl_cons]; rw [ih, apply_deltas_pure_length]
+
+theorem rewards_stage_frame (cfg : Config) (inp : EpochInputs) (prev cur : Nat) (s : State) :
+    let s1 := rewards_stage cfg inp prev cur s
+    s1.validators = s.validators ∧ s1.balances.length = s.balances.length ∧ s1.fork = s.fork ∧ s1.slashings = s.slashings ∧
+    s1.current_epoch_participation = s.current_epoch_participation ∧
+    s1.finalized_checkpoint = s.finalized_checkpoint := by
+  simp only [rewards_stage]
+  split
+  · exact ⟨rfl, rfl, rfl, rfl, rfl, rfl⟩
+  · split
+    · refine ⟨rfl, ?_, rfl, rfl, rfl, rfl⟩
+      simp only [process_rewards_and_penalties_phase0_pure, apply_deltas_pure_length]
+    · refine ⟨rfl, ?_, rfl, rfl, rfl, rfl⟩
+      simp only [process_rewards_and_penalties_altair_pure, foldl_apply_deltas_length]
+
+theorem registry_stage_eq (cfg : Config) (cur : Nat) (flats : List Validator) (s : State) (hv : s.validators = flats)
+    (hsmall : Lemmas.EpochsSmall cfg cur flats) (hfin : s.finalized_checkpoint.epoch ≤ cur) :
+    Impl.registryStage cfg cur flats s = registry_stage cfg cur s := by
+  unfold Impl.registryStage registry_stage
+  subst hv
+  rw [registry_updates_eq cfg _ cur _ s.validators hsmall hfin]
+  by_cases hd : s.fork ≥ .deneb <;> simp [hd]
+
+theorem registry_length (cfg : Config) (cur fin limit : Nat) (vals : List Validator) :
+    (registry_activations_pure cfg cur fin limit (registry_eligibility_and_ejections_pure cfg cur vals)).length = vals.length := by
+  have := congrArg List.length (flat_snapshot_sound cfg cur fin limit vals)
+  simpa using this
+
+theorem slashings_stage_eq (cfg : Config) (cur : Nat) (flats : List Validator) (s0 : State)
+    (hwf : Lemmas.WF flats) (hcur : cur < FAR_FUTURE_EPOCH) (hlen : flats.length ≤ s0.balances.length)
+    (hv : s0.validators = flats) :
+    Impl.slashingsStage cfg cur flats (registry_stage cfg cur s0) = slashings_stage cfg cur (registry_stage cfg cur s0) := by
+  unfold Impl.slashingsStage slashings_stage
+  subst hv
+  simp only [registry_stage]
+  rw [slashings_snapshot_eq cfg s0.fork cur s0.finalized_checkpoint.epoch _ s0.validators s0.slashings s0.balances hwf hcur hlen,
+    registry_length]
+
+theorem slashings_pure_length (cfg : Config) (fork : Fork) (epoch total : Nat) (slashings : List Nat)
+    (vals : List Validator) (balances : List Nat) (k : Nat) (hk : vals.length = k) (h : k ≤ balances.length) :
+    (process_slashings_pure cfg fork epoch total slashings vals balances ++ balances.drop k).length = balances.length := by
+  unfold process_slashings_pure
+  simp only [List.length_append, List.length_map, List.length_zip, List.length_drop]
+  omega
+
+theorem effective_balance_stage_eq (cfg : Config) (cur fin limit : Nat) (flats : List Validator) (x : State)
+    (hv : x.validators = registry_activations_pure cfg cur fin limit (registry_eligibility_and_ejections_pure cfg cur flats))
+    (hlen : flats.length ≤ x.balances.length) :
+    Impl.effectiveBalanceStage cfg flats x = effective_balance_stage cfg x := by
+  unfold Impl.effectiveBalanceStage effective_balance_stage
+  rw [hv, effectiveBalance_snapshot_eq cfg cur fin limit flats x.balances hlen]
+
+theorem eth1_stage_eq (cfg : Config) (cur : Nat) (x : State) : Impl.eth1Stage cfg cur x = eth1_stage cfg cur x := by
+  unfold Impl.eth1Stage eth1_stage
+  rw [(resets_eq cfg cur x.eth1_data_votes [] []).1]
+
+theorem slashings_reset_stage_eq (cfg : Config) (cur : Nat) (x : State) :
+    Impl.slashingsResetStage cfg cur x = slashings_reset_stage cfg cur x := rfl
+
+theorem randao_stage_eq (cfg : Config) (cur : Nat) (x : State) : Impl.randaoStage cfg cur x = randao_stage cfg cur x := by
+  unfold Impl.randaoStage randao_stage
+  rw [(resets_eq cfg cur [] [] x.randao_mixes).2.2]
+
+theorem historical_stage_eq (cfg : Config) (cur : Nat) (x : State) :
+    Impl.historicalStage cfg cur x = historical_stage cfg cur x := by
+  unfold Impl.historicalStage historical_stage
+  split
+  · rw [(historical_eq cfg cur x.block_roots x.state_roots [] x.historical_summaries).2]
+  · rw [(historical_eq cfg cur x.block_roots x.state_roots x.historical_roots []).1]
+
+theorem participation_stage_eq (x : State) (h : x.fork ≠ .phase0 → x.current_epoch_participation.length = x.validators.length) :
+    Impl.participationStage x = participation_stage x := by
+  unfold Impl.participationStage participation_stage
+  split
+  · rfl
+  · rename_i hf
+    rw [(participation_rotation_eq x.validators.length x.current_epoch_participation [] (h hf)).1]
+
+theorem sync_stage_eq (cfg : Config) (inp : EpochInputs) (cur : Nat) (x : State) :
+    Impl.syncStage cfg inp cur x = sync_stage cfg inp cur x := by
+  unfold Impl.syncStage sync_stage
+  split
+  · rfl
+  · rw [(syncCommittee_rotation_eq cfg [] [] ByteArray.empty id 0 cur x.current_sync_committee x.next_sync_committee inp.computedSync).2]
+
+theorem historical_stage_frame (cfg : Config) (cur : Nat) (x : State) :
+    (historical_stage cfg cur x).fork = x.fork ∧
+    (historical_stage cfg cur x).current_epoch_participation = x.current_epoch_participation ∧
+    (historical_stage cfg cur x).validators = x.validators := by
+  unfold historical_stage
+  split <;> exact ⟨rfl, rfl, rfl⟩
+
+theorem effective_balance_pure_length (cfg : Config) (vals : List Validator) (balances : List Nat) (h : vals.length ≤ balances.length) :
+    (process_effective_balance_updates_pure cfg vals balances).length = vals.length := by
+  unfold process_effective_balance_updates_pure
+  simp only [List.length_map, List.length_zip]
+  omega
+
+/-- `processEpoch_eq`: the whole `ProcessEpoch` of zrnt (phase0 and altair … deneb; snapshot of the registry and attester
+data taken once, sub-steps in order) equals the whole `process_epoch` of the spec, for every state satisfying
+`EpochWF` (which reachable states do), every configuration and the same oracle inputs. Assembled from the
+sub-transition theorems; the registry, slashings and effective-balance steps need the snapshot lemmas. -/
+theorem processEpoch_eq (cfg : Config) (inp : EpochInputs) (s : State) (h : EpochWF cfg s) :
+    Impl.processEpochPure cfg inp s = process_epoch_pure cfg inp s := by
+  unfold Impl.processEpochPure process_epoch_pure
+  simp only []
+  generalize hprev : get_previous_epoch cfg s = prev
+  generalize hcur : get_current_epoch cfg s = cur
+  have hsmall := h.small; rw [hcur] at hsmall
+  have hcurlt : cur < FAR_FUTURE_EPOCH := by
+    have := hsmall.1; unfold compute_activation_exit_epoch at this; omega
+  -- stage 1
+  rw [justification_stage_eq cfg inp prev cur s h.bits]
+  obtain ⟨v1, b1, f1, sl1, pp1, cp1, is1⟩ := justification_stage_frame cfg inp prev cur s
+  have fin1 := justification_stage_fin cfg inp prev cur s (hcur ▸ h.fin) (hcur ▸ h.pj) (hcur ▸ h.cj)
+  generalize justification_stage cfg inp prev cur s = s1 at *
+  -- stage 2
+  rw [← v1, inactivity_stage_eq cfg prev cur s1]
+  obtain ⟨v2, b2, f2, sl2, pp2, cp2, fc2⟩ := inactivity_stage_frame cfg prev cur s1
+  generalize inactivity_stage cfg prev cur s1 = s2 at *
+  -- stage 3
+  rw [← v2, rewards_stage_eq cfg inp prev cur s2 (by rw [b2, b1, v2, v1]; exact h.bal_len)]
+  obtain ⟨v3, b3, f3, sl3, cp3, fc3⟩ := rewards_stage_frame cfg inp prev cur s2
+  generalize rewards_stage cfg inp prev cur s2 = s3 at *
+  -- stage 4
+  have hv3 : s3.validators = s.validators := by rw [v3, v2, v1]
+  have hb3 : s3.balances.length = s.validators.length := by rw [b3, b2, b1]; exact h.bal_len
+  rw [v2, v1, registry_stage_eq cfg cur s.validators s3 hv3 hsmall (by rw [fc3, fc2]; exact fin1)]
+  -- stage 5
+  rw [slashings_stage_eq cfg cur s.validators s3 h.wf hcurlt (by omega) hv3]
+  -- stage 6
+  rw [eth1_stage_eq]
+  -- stage 7
+  rw [effective_balance_stage_eq cfg cur s3.finalized_checkpoint.epoch
+      (if s3.fork ≥ .deneb then min cfg.MAX_PER_EPOCH_ACTIVATION_CHURN_LIMIT
+          (churn_limit_of cfg (registry_eligibility_and_ejections_pure cfg cur s3.validators) cur)
+        else churn_limit_of cfg (registry_eligibility_and_ejections_pure cfg cur s3.validators) cur)
+      s.validators _ (by simp only [eth1_stage, slashings_stage, registry_stage, hv3])
+      (by
+        simp only [eth1_stage, slashings_stage, registry_stage]
+        rw [registry_length, hv3, slashings_pure_length _ _ _ _ _ _ _ _ (registry_length _ _ _ _ _) (by omega)]
+        omega)]
+  -- stages 8-10
+  rw [slashings_reset_stage_eq, randao_stage_eq, historical_stage_eq]
+  -- stage 11
+  rw [participation_stage_eq _ (by
+    obtain ⟨hf', hcp', hv'⟩ := historical_stage_frame cfg cur (randao_stage cfg cur (slashings_reset_stage cfg cur
+      (effective_balance_stage cfg (eth1_stage cfg cur (slashings_stage cfg cur (registry_stage cfg cur s3))))))
+    rw [hf', hcp', hv']
+    simp only [randao_stage, slashings_reset_stage, effective_balance_stage, eth1_stage, slashings_stage, registry_stage]
+    intro hf
+    have hfork : s.fork ≠ .phase0 := by rw [f3, f2, f1] at hf; exact hf
+    rw [cp3, cp2, cp1, h.part_len hfork,
+      effective_balance_pure_length _ _ _ (by
+        rw [registry_length, hv3, slashings_pure_length _ _ _ _ _ _ _ _ (registry_length _ _ _ _ _) (by omega)]; omega),
+      registry_length, hv3])]
+  -- stage 12
+  rw [sync_stage_eq]
+
+/-- non-vacuity of `EpochWF`: a one-validator phase0 state -/
+def exampleState : State :=
+  let d : State := default
+  { d with validators := [default], balances := [0], justification_bits := [false, false, false, false] }
+
+example : EpochWF default exampleState := by
+  have hv : exampleState.validators = [default] := rfl
+  refine ⟨?_, ⟨by decide, ?_⟩, rfl, rfl, by decide, by decide, by decide, fun h => absurd rfl h⟩
+  · intro v hv'
+    rw [hv] at hv'
+    simp only [List.mem_cons, List.not_mem_nil, or_false] at hv'
+    subst hv'
+    refine ⟨fun h => ?_, by decide, by decide⟩
+    exact absurd h (by decide)
+  · intro v hv' _
+    rw [hv] at hv'
+    simp only [List.mem_cons, List.not_mem_nil, or_false] at hv'
+    subst hv'; decide
+
+/-! ## Slots
+
+`processSlots_eq` (full statement, NOT proved): for every reachable state `s` and every target slot,
+`common.ProcessSlots` = `process_slots` including the fork upgrades. What is proved is the composition step: over any
+number of slots, a slot loop that runs zrnt's `ProcessEpoch` at the epoch boundaries equals the slot loop that runs the
+spec's `process_epoch`, PROVIDED the invariant `EpochWF` holds wherever an epoch transition starts. That `EpochWF` is
+re-established by `process_slot`, by the whole of `process_epoch` (only its registry part, `WF_preserved_epoch`, is
+proved) and by the fork upgrades is not proved; `process_slot` and the upgrades have no separate model (they are the
+same definitions on both sides) and rest on the correspondence Go = S. -/
+
+/-- one slot: cache roots (`slotFn`), epoch transition at the boundary, advance the slot, upgrade (`upgFn`) -/
+def slotStep (epochFn : Config → EpochInputs → State → State) (cfg : Config) (slotFn upgFn : State → State)
+    (inp : EpochInputs) (s : State) : State :=
+  let s := slotFn s
+  let s := if (s.slot + 1) % cfg.SLOTS_PER_EPOCH = 0 then epochFn cfg inp s else s
+  upgFn { s with slot := s.slot + 1 }
+
+def slotsLoop (epochFn : Config → EpochInputs → State → State) (cfg : Config) (slotFn upgFn : State → State)
+    (inps : List EpochInputs) (s : State) : State :=
+  inps.foldl (fun s inp => slotStep epochFn cfg slotFn upgFn inp s) s
+
+/-- `processSlots_eq_partial`: induction on the number of slots. `Inv` is any invariant that holds initially, is kept by
+one slot step of the SPEC, and gives `EpochWF` at the point where the epoch transition starts. -/
+theorem processSlots_eq_partial (cfg : Config) (slotFn upgFn : State → State) (Inv : State → Prop)
+    (hwf : ∀ x, Inv x → EpochWF cfg (slotFn x))
+    (hstep : ∀ x inp, Inv x → Inv (slotStep process_epoch_pure cfg slotFn upgFn inp x))
+    (inps : List EpochInputs) (s : State) (hs : Inv s) :
+    slotsLoop Impl.processEpochPure cfg slotFn upgFn inps s = slotsLoop process_epoch_pure cfg slotFn upgFn inps s := by
+  unfold slotsLoop
+  induction inps generalizing s with
+  | nil => rfl
+  | cons inp rest ih =>
+    simp only [List.foldl_cons]
+    have h1 : slotStep Impl.processEpochPure cfg slotFn upgFn inp s = slotStep process_epoch_pure cfg slotFn upgFn inp s := by
+      unfold slotStep
+      simp only []
+      rw [processEpoch_eq cfg inp (slotFn s) (hwf s hs)]
+    rw [h1]
+    exact ih _ (hstep s inp hs)
+
+/-- non-vacuity: the trivial invariant on a configuration where no epoch boundary … is NOT what is meant; a real
+instance is `Inv := fun x => EpochWF cfg (slotFn x)` with a `slotFn` that only writes the root caches -/
+example : ∃ (Inv : State → Prop) (s : State), Inv s := ⟨fun _ => True, default, trivial⟩
 
 end Zrnt.Proofs.C02
